@@ -92,7 +92,7 @@ func main() {
 	r.Set("traces_validated_against_impl", trans)
 	r.Set("max_depth", depth)
 	r.Set("configs", parts)
-	r.Set("rule", "explicit-state BFS to fixpoint over the real avl.Tree; state = fingerprint of the complete concrete tree; alphabet Add(v), Remove(v) incl. absent values below/inside/above the universe, Clear, Clone (search continues on the clone); after every transition every public observer is compared with a sorted-multiset model")
+	r.Set("rule", "explicit-state BFS to fixpoint over the real avl.Tree; state = fingerprint of the complete concrete tree; alphabet Add(v), Remove(v) incl. absent values below/inside/above the universe, Clear, Clone (search continues on the clone); after every transition every public observer is compared with a sorted-multiset model PLUS deterministic families beyond the exhaustive bound (large sizes, every single/double removal from trees built in 7 orders, long one-instance churn histories): see the *_family_* counters")
 	r.Assume("comparators are total orders consistent with ==; universe and size bound as listed in configs")
 	r.Finish()
 }
